@@ -77,7 +77,7 @@ c16=tc+["table/c16.go","table/c14.go"]
 for rp in range(6):
   for op in range(4):
     add("C16.validate6.r%d.o%d"%(rp,op),"VH_c16_validate",TBL,c16,({"roas":2,"v6":1} if (rp+op)%3==0 else {"skip":True}),{"params":{"roas":2,"v6":1},"harness_s":2400},expect_reach=["end"],pins={"route_pfx":rp,"op":op},bounds="IPv6: 2 ROAs over 4 nested/unrelated IPv6 prefixes (/32 > /48 > /64, other /48) with symbolic max-length up to 128, AS and cache; one maintenance operation; route over 6 prefixes; 8 of the 24 (route, operation) instances in the quick tier")
-    add("C16.validate.r%d.o%d"%(rp,op),"VH_c16_validate",TBL,c16,{"roas":2,"v6":0},{"params":{"roas":3,"v6":0},"harness_s":2400},expect_reach=["end"],pins={"route_pfx":rp,"op":op},bounds="`roas` ROAs over 4 nested/unrelated IPv4 prefixes with symbolic max-length (valid range), AS (incl. 0) and one of 2 caches; one maintenance operation (none / withdraw announced / withdraw unknown / drop cache); route over 6 prefixes with 5 AS_PATH shapes and symbolic origin / local AS")
+    add("C16.validate.r%d.o%d"%(rp,op),"VH_c16_validate",TBL,c16,{"roas":2,"v6":0},{"params":{"roas":3,"v6":0},"harness_s":6000},expect_reach=["end"],pins={"route_pfx":rp,"op":op},bounds="`roas` ROAs over 4 nested/unrelated IPv4 prefixes with symbolic max-length (valid range), AS (incl. 0) and one of 2 caches; one maintenance operation (none / withdraw announced / withdraw unknown / drop cache); route over 6 prefixes with 5 AS_PATH shapes and symbolic origin / local AS")
 add("C16.rtr_sessions","VH_c16_rtr_sessions",SRV,sc+["server/c16.go"],expect_reach=["end"],bounds="one cache: full response (2 records), incremental withdraw of a known or unknown record and re-announcement, second full response under the same or a different session id (session ids, serials and AS numbers symbolic)")
 c17=tc+["table/c17.go","table/c02.go","table/c03.go","table/c14.go"]
 add("C17.key_injective","VH_c17_key_injective",TBL,c17,{"segs":1},{"segs":1},expect_reach=["end"],bounds="two route targets of the three kinds (two-octet AS, IPv4, four-octet AS) with symbolic sub-type, transitivity, global and local admin")
